@@ -33,15 +33,19 @@ const (
 )
 
 type lkPeer struct {
-	id      peer.ID
-	kad     *big.Int
-	outcome int
-	closer  []int // indices into lkCase.peers; -1 = the node under test
-	a, b    [2]int
-	naddr   int  // 1 or 2 addresses
-	pass    bool // passes the query filter
-	knows   []int
+	id       peer.ID
+	kad      *big.Int
+	outcome  int
+	closer   []int // indices into lkCase.peers; -1 = the node under test
+	a, b     [2]int
+	naddr    int  // 1 or 2 addresses
+	pass     bool // passes the query filter
+	knows    []int
+	slowDial bool // not connected yet: the dial is a separate step that the driver releases (and that succeeds)
 }
+
+// lkSlowDialPct: share of the answering peers that have to be dialled first (set by the lookup checks only).
+var lkSlowDialPct = 0
 
 type lkCase struct {
 	k, alpha, beta, limit int
@@ -121,6 +125,7 @@ func lkGen(r *vfRand, i int, honest bool) *lkCase {
 			p.outcome = lkDialFail + r.Intn(2)
 		default:
 			p.outcome = lkAnswer
+			p.slowDial = lkSlowDialPct > 0 && r.Chance(lkSlowDialPct)
 		}
 	}
 	// key: random, or (FindPeer style) the id of one of the peers
@@ -234,18 +239,18 @@ func lkBucketComplete(r *vfRand, c *lkCase, j int) []int {
 }
 
 type lkObs struct {
-	panicked  string
-	deadlock  bool
-	err       string
-	peers     []peer.ID
-	states    []qpeerset.PeerState
-	closest   []peer.ID
-	completed bool
-	nilResult bool
-	events    []*LookupEvent
-	requests  []peer.ID
-	evs       []string // Coq events, in release order
-	seeds     []peer.ID
+	panicked                string
+	deadlock                bool
+	err                     string
+	peers                   []peer.ID
+	states                  []qpeerset.PeerState
+	closest                 []peer.ID
+	completed               bool
+	nilResult               bool
+	events                  []*LookupEvent
+	requests                []peer.ID
+	evs                     []string // Coq events, in release order
+	seeds                   []peer.ID
 	cancelledBeforeFollowup bool
 	cancelFollowup          int // -1 = none
 	steps                   int
@@ -255,6 +260,8 @@ type lkObs struct {
 	pubPeers                []peer.ID
 	pubErr                  bool
 	pubCancelled            bool // the public run's own context was cancelled by the driver
+	slowDials               int
+	attempts                []peer.ID
 	pubMoved                bool
 	pubMovedObservable      bool
 	hasPub                  bool
@@ -314,6 +321,13 @@ func lkRun(t *testing.T, r *vfRand, c *lkCase, public bool, hooks ...*lkHooks) *
 		byID[c.peers[j].id] = j
 		if c.peers[j].outcome == lkDialFail {
 			node.h.net.notConnected[c.peers[j].id] = true
+		}
+		if c.peers[j].slowDial {
+			node.h.net.notConnected[c.peers[j].id] = true
+			if node.h.net.dialOK == nil {
+				node.h.net.dialOK = map[peer.ID]bool{}
+			}
+			node.h.net.dialOK[c.peers[j].id] = true
 		}
 	}
 	for _, j := range c.rt {
@@ -493,6 +507,13 @@ func lkRun(t *testing.T, r *vfRand, c *lkCase, public bool, hooks ...*lkHooks) *
 		if recordSend(call) {
 			return i
 		}
+		if call.kind == "dial" {
+			if j, ok := byID[call.p]; ok && c.peers[j].slowDial {
+				// a dial that succeeds (or is aborted by a cancellation) is no answer: the request follows
+				o.slowDials++
+				return i
+			}
+		}
 		if call.origin == "followup" {
 			followDone++
 		} else {
@@ -530,7 +551,19 @@ func lkRun(t *testing.T, r *vfRand, c *lkCase, public bool, hooks ...*lkHooks) *
 		o.peers, o.states, o.closest, o.completed = res.peers, res.state, res.closest, res.completed
 	}
 	for _, call := range node.gate.Log() {
-		o.requests = append(o.requests, call.p)
+		slow := false
+		if j, ok := byID[call.p]; ok && c.peers[j].slowDial {
+			slow = true
+		}
+		// requests: what the network saw of a request (a failing dial counts as the failed request it replaces);
+		// the successful or aborted dial of a peer that is dialled first is not yet a request to it
+		if !(slow && call.kind == "dial") {
+			o.requests = append(o.requests, call.p)
+		}
+		// attempts: one per spawned query; for a peer that is dialled first that is the dial
+		if !slow || call.kind == "dial" {
+			o.attempts = append(o.attempts, call.p)
+		}
 	}
 	synctest.Wait()
 	o.rtAfter = d.routingTable.ListPeers()
@@ -645,7 +678,13 @@ func lkCoq(c *lkCase, o *lkObs, selfID peer.ID) string {
 		}
 		uni = lkIDs(all)
 	}
-	fmt.Fprintf(&b, "   c_universe := %s; c_full := %s;\n", uni, vfBool(c.fullKnowledge))
+	var slow []peer.ID
+	for j := range c.peers {
+		if c.peers[j].slowDial {
+			slow = append(slow, c.peers[j].id)
+		}
+	}
+	fmt.Fprintf(&b, "   c_universe := %s; c_full := %s; c_slow := %s;\n", uni, vfBool(c.fullKnowledge), lkIDs(slow))
 	st := make([]string, len(o.states))
 	for i, s := range o.states {
 		st[i] = lkStateCoq(s)
@@ -664,7 +703,7 @@ func lkCoq(c *lkCase, o *lkObs, selfID peer.ID) string {
 		}
 		pub = fmt.Sprintf("Some (%s, %s, %s, %s)", lkIDs(o.pubPeers), vfBool(o.pubErr), mv, vfBool(o.pubCancelled))
 	}
-	fmt.Fprintf(&b, "   i_events := %s;\n   i_requests := %s;\n   i_pub := %s |}", vfList(evs), lkIDs(o.requests), pub)
+	fmt.Fprintf(&b, "   i_events := %s;\n   i_requests := %s;\n   i_pub := %s;\n   i_attempts := %s |}", vfList(evs), lkIDs(o.requests), pub, lkIDs(o.attempts))
 	return b.String()
 }
 
@@ -732,6 +771,8 @@ func lkRunAll(t *testing.T, runMod string, honestPct int, withPublic bool) {
 	only := vfOnly()
 	cs := vfNewCases(runMod, 100)
 	root := vfNewRand(seed)
+	lkSlowDialPct = 15
+	defer func() { lkSlowDialPct = 0 }()
 	vfStartWatchdog(60 * time.Second)
 	defer vfStopWatchdog()
 	for i := 0; i < n; i++ {
@@ -808,6 +849,9 @@ func lkRunAll(t *testing.T, runMod string, honestPct int, withPublic bool) {
 		}
 		if c.cancelAt >= 0 {
 			cs.Count("with-cancel", 1)
+		}
+		if o.slowDials > 0 {
+			cs.Count("with-slow-dials", 1)
 		}
 		if c.stopKind > 0 {
 			cs.Count("with-stop", 1)
